@@ -24,4 +24,5 @@ for id in $ids; do
   [ $code = 1 ] && caught="$caught $id"
 done
 echo "SEEDALL $(basename $(dirname $patch))/$(basename $patch): caught by:${caught:- NONE}"
-rm -f "$here"/.build/props-*.test "$here"/.build/alt-*.mod "$here"/.build/alt-*.sum
+h=$(printf %s "$scratch" | sha256sum | cut -c1-8)
+rm -f "$here"/.build/props-$h.test "$here"/.build/props-$h.race.test "$here"/.build/alt-$h.mod "$here"/.build/alt-$h.sum
